@@ -3,6 +3,7 @@ package simnode
 import (
 	"fmt"
 	"math/big"
+	"sync/atomic"
 	"time"
 
 	"github.com/golang/protobuf/proto"
@@ -75,20 +76,27 @@ func (n *Node) WalkBackToBack(targets ...[]byte) error {
 func (n *Node) WithRecovery(f func() error) error { return n.withRecovery(f) }
 
 // withRecovery runs f (which may call State.Walk any number of times) and then waits for every
-// pool recovery goroutine those walks started. A walk announces the goroutine synchronously,
-// before it returns: "utxo walk finish" on success, "walk failed, recover unconfirm tx" on a
-// failure that gives the pool back.
+// pool recovery goroutine those walks started. Two independent sources are used so that the wait
+// does not hinge on one implementation detail of the code under test:
+//   - the verif hook State.VerifWaitRecovery (exact while a recovery keeps the recovery mutex
+//     until it is done, as the code does since the walk-walk repair);
+//   - the node's own log: a walk announces the goroutine synchronously before it returns
+//     ("utxo walk finish" on success, "walk failed, recover unconfirm tx" on a failure that gives
+//     the pool back) and the goroutine logs "recover unconfirm tx done" exactly once. This covers
+//     a tree in which the recovery no longer holds the mutex; when the log lines have been
+//     reworded it is simply silent (no announcement counted, nothing waited for).
 func (n *Node) withRecovery(f func() error) error {
 	done, started := n.Log.recoverDone(), n.Log.recoverStarted()
 	err := f()
+	n.State.VerifWaitRecovery()
 	if d := n.Log.recoverStarted() - started; d > 0 {
 		n.Log.waitRecover(done + d)
 	}
 	return err
 }
 
-// WaitQuiescent is a no-op placeholder: Walk already waits for the recovery goroutine.
-func (n *Node) WaitQuiescent() {}
+// WaitQuiescent returns once no pool recovery started by an earlier walk is running.
+func (n *Node) WaitQuiescent() { n.State.VerifWaitRecovery() }
 
 // ---- recovery tracking through the capturing logger ----
 // State.Walk starts `go recoverUnconfirmedTx(...)` on every successful return; that
@@ -124,21 +132,35 @@ func (l *CapLogger) noteInfo(msg string) {
 	}
 }
 
-// waitRecover blocks until the done counter reaches want. A generous wall-clock
-// watch-dog turns a missing message into a panic that the driver reports as
-// inconclusive (never as a violation).
+// waitRecover blocks until the done counter reaches want. It is called after the hook-based wait
+// has returned, so on a tree whose recovery keeps the mutex the counter is already there. If it is
+// not, either the recovery runs outside the mutex (then the message will come) or the completion
+// message has been reworded (then it never will): the first few misses are given 3 s each, after
+// which the log is declared unreliable for this process and the hook alone decides. A generous
+// wall-clock watch-dog never turns into a violation.
 func (l *CapLogger) waitRecover(want int) {
-	deadline := time.Now().Add(60 * time.Second)
+	if l.recoverDone() >= want || logWaitOff.Load() {
+		return
+	}
+	deadline := time.Now().Add(3 * time.Second)
 	for {
 		if l.recoverDone() >= want {
 			return
 		}
 		if time.Now().After(deadline) {
-			panic(Inconclusive{Why: "pool recovery goroutine did not report completion within 60s"})
+			if logWaitMisses.Add(1) >= 3 {
+				logWaitOff.Store(true)
+			}
+			return
 		}
 		time.Sleep(50 * time.Microsecond)
 	}
 }
+
+var (
+	logWaitMisses atomic.Int32
+	logWaitOff    atomic.Bool
+)
 
 // Inconclusive is the panic value used for harness-side watchdogs.
 type Inconclusive struct{ Why string }
